@@ -42,6 +42,10 @@ SOFTWARE, EVEN IF ADVISED OF THE POSSIBILITY OF SUCH DAMAGE.
 
 #include "exception.h"
 
+#ifdef YARA_VERIF
+#include <yara/verif.h>
+#endif
+
 static int _yr_scanner_scan_mem_block(
     YR_SCANNER* scanner,
     const uint8_t* block_data,
@@ -73,6 +77,10 @@ static int _yr_scanner_scan_mem_block(
 
   while (i < block->size)
   {
+#ifdef YARA_VERIF
+    yr_verif_bytes_scanned++;
+#endif
+
     if (i % 4096 == 0 && scanner->timeout > 0)
     {
       if (yr_stopwatch_elapsed_ns(&scanner->stopwatch) > scanner->timeout)
@@ -522,6 +530,9 @@ YR_API int yr_scanner_scan_mem_blocks(
   YR_TRYCATCH(
       !(scanner->flags & SCAN_FLAGS_NO_TRYCATCH),
       {
+#ifdef YARA_VERIF
+        YR_VERIF_AT(YR_VERIF_POINT_SCAN_START, scanner);
+#endif
         while (block != NULL)
         {
           const uint8_t* data = yr_fetch_block_data(block);
@@ -542,7 +553,13 @@ YR_API int yr_scanner_scan_mem_blocks(
               scanner->entry_point = yr_get_entry_point_offset(
                   data, block->size);
           }
+#ifdef YARA_VERIF
+          YR_VERIF_AT(YR_VERIF_POINT_BLOCK_BEGIN, scanner);
+#endif
           result = _yr_scanner_scan_mem_block(scanner, data, block);
+#ifdef YARA_VERIF
+          YR_VERIF_AT(YR_VERIF_POINT_BLOCK_END, scanner);
+#endif
           if (result != ERROR_SUCCESS)
           {
             break;
@@ -574,6 +591,10 @@ YR_API int yr_scanner_scan_mem_blocks(
 
   if (result != ERROR_SUCCESS)
     goto _exit;
+
+#ifdef YARA_VERIF
+  YR_VERIF_AT(YR_VERIF_POINT_REPORT, scanner);
+#endif
 
   for (i = 0, rule = rules->rules_table; !RULE_IS_NULL(rule); i++, rule++)
   {
